@@ -32,7 +32,7 @@ const (
 )
 
 var classes = []string{"valid-A", "valid-B", "duplicate-A", "wrong-length", "wrong-protocol", "wrong-function", "non-bcd-date", "calendar-invalid-date"}
-var times = []time.Duration{T / 10, T / 2, T - eps, T + eps}
+var times = []time.Duration{T / 10, T / 2, T - eps, T, T + eps}
 
 var devOp = spec.OpByName("GetDevices")
 
@@ -139,7 +139,7 @@ func scenario(name string, n int, fixedTimes []time.Duration, bcastPort uint16, 
 		}
 		var wants []want
 		for _, a := range arr {
-			if a.at >= T {
+			if a.at > T {
 				continue
 			}
 			switch a.class {
@@ -153,7 +153,8 @@ func scenario(name string, n int, fixedTimes []time.Duration, bcastPort uint16, 
 				ip := ex.Fields["IpAddress"].([4]byte)
 				ex.Fields["Address"] = netip.AddrPortFrom(netip.AddrFrom4(ip), port)
 				ex.Fields["Name"] = nameWant
-				wants = append(wants, want{ex, a.class == "calendar-invalid-date", a.class})
+				// a reply landing in the very instant of the timeout may or may not make it
+				wants = append(wants, want{ex, a.class == "calendar-invalid-date" || a.at == T, a.class})
 			}
 		}
 		// match got against wants, allowing optional entries to be absent
@@ -292,7 +293,7 @@ func main() {
 	if r.Worker == "" && r.Replay == "" {
 		vs.Run(nil, nil, vs.Options{}, func() { mappingSweep(r) })
 	}
-	r.Rule("every sequence of 0..2 datagrams over 8 classes x 4 arrival times (0.1T, 0.5T, T-e, T+e), every 3-datagram class sequence at two fixed time patterns (thorough: also simultaneous arrivals and 4 datagrams), broadcast address unset / port 60005, each under all interleavings of the reader goroutine and the sleeping caller within the preemption bound; plus a driver-level sweep of one reply through the result mapping (every byte value of address/mask/gateway/MAC/version/serial, all 65536 version, year and month-day byte pairs) x {unnamed + default port, named + port 60005}. distinct = distinct (entries, datagrams) labels")
+	r.Rule("every sequence of 0..2 datagrams over 8 classes x 5 arrival times (0.1T, 0.5T, T-e, T, T+e), every 3-datagram class sequence at two fixed time patterns (thorough: also simultaneous arrivals and 4 datagrams), broadcast address unset / port 60005, each under all interleavings of the reader goroutine and the sleeping caller within the preemption bound; plus a driver-level sweep of one reply through the result mapping (every byte value of address/mask/gateway/MAC/version/serial, all 65536 version, year and month-day byte pairs) x {unnamed + default port, named + port 60005}. distinct = distinct (entries, datagrams) labels")
 	r.Assume("a reply with a calendar-invalid BCD date may be dropped or reported with the zero date (the property lists only non-BCD dates as malformed)")
 	r.Finish()
 }
